@@ -2,6 +2,7 @@
 package monitors
 
 import (
+	"bytes"
 	"runtime"
 	"sync"
 	"time"
@@ -73,4 +74,20 @@ func registerChild(id, level, variant string, body func(r *ev.Run)) {
 		}
 		r.Finish(rule, floor)
 	})
+}
+
+// scionQuiesce waits until no goroutine is inside the SCION client's measurement any more.
+// MeasureClockOffsetSCION returns at its deadline while the per-path goroutines it started end a
+// moment later (they leave through the same deadline on their sockets); the time service starts
+// its next round at least half an interval later, a monitor that calls back to back must not
+// overlap them with the next call on the same client.  Bounded by 3 s (then it gives up waiting).
+func scionQuiesce() {
+	buf := make([]byte, 1<<20)
+	for i := 0; i < 3000; i++ {
+		n := runtime.Stack(buf, true)
+		if !bytes.Contains(buf[:n], []byte(").measureClockOffsetSCION(")) {
+			return
+		}
+		time.Sleep(time.Millisecond)
+	}
 }
